@@ -68,7 +68,18 @@ func directedScenario(cfg simkit.RunConfig) (any, bool) {
 	return sc, true
 }
 
-func (Engine) Generate(cfg simkit.RunConfig) (any, bool) {
+func (e Engine) Generate(cfg simkit.RunConfig) (any, bool) {
+	sc, ok := e.generate(cfg)
+	if s, is := sc.(*Scenario); ok && is && s != nil {
+		switch strings.TrimSuffix(cfg.Mode, "-R") {
+		case "", "workload", "nofault", "crash", "crashfaults", "faults", "leftover":
+			addAsserts(cfg.Seed, s)
+		}
+	}
+	return sc, ok
+}
+
+func (Engine) generate(cfg simkit.RunConfig) (any, bool) {
 	// a mode name ending in "-R" runs on the reference backend (all commit modes: 2PC, async commit, 1PC)
 	backend := "M"
 	mode := cfg.Mode
@@ -501,6 +512,8 @@ func probeClass(e string) string {
 		return "ok"
 	case strings.HasPrefix(e, "other:"):
 		switch {
+		case strings.Contains(e, "assertion failed"):
+			return "assertion-failed"
 		case strings.Contains(e, "deadlock"):
 			return "deadlock"
 		case strings.Contains(e, "no wait"):
